@@ -179,15 +179,20 @@ class patched:
     def __init__(self, mod, **kw):
         self.mod, self.kw, self.old = mod, kw, {}
 
+    _MISSING = object()
+
     def __enter__(self):
         for k, v in self.kw.items():
-            self.old[k] = getattr(self.mod, k)
+            self.old[k] = self.mod.__dict__.get(k, self._MISSING) if hasattr(self.mod, '__dict__') else getattr(self.mod, k)
             setattr(self.mod, k, v)
         return self
 
     def __exit__(self, *a):
         for k, v in self.old.items():
-            setattr(self.mod, k, v)
+            if v is self._MISSING:
+                delattr(self.mod, k)      # the name was a builtin (e.g. open) shadowed in the module
+            else:
+                setattr(self.mod, k, v)
         return False
 
 
@@ -297,9 +302,14 @@ class quiet_searchers:
 
 
 def pick(x, lo, hi):
-    """Concretise a small symbolic selector by explicit case split (one clean fork per value)
-    so that later list indexing / slicing / range() see a plain int."""
-    for k in range(lo, hi + 1):
-        if x == k:
-            return k
-    raise Skip()
+    """Concretise a small symbolic selector by explicit case split (binary search: log2(n) clean
+    forks) so that later list indexing / slicing / range() see a plain int."""
+    if x < lo or x > hi:
+        raise Skip()
+    while lo < hi:
+        mid = (lo + hi) // 2
+        if x <= mid:
+            hi = mid
+        else:
+            lo = mid + 1
+    return lo
